@@ -34,7 +34,7 @@ def cuts_to_menu(cuts):
 
 
 def enumerate_all(fn, word_menu, outcome, max_runs=5_000_000):
-    """Full enumeration.  fn(): the call under test (reads the scripted RNG).  word_menu(position, log) -> [(word, weight)]
+    """Full enumeration.  fn(): the call under test (reads the scripted RNG).  word_menu(position, log, prefix) -> [(word, weight)]
     for a random-word request; bounded requests get all values with weight 1/bound.
     outcome(result) -> hashable.  Returns (dict outcome -> probability, runs, leaves, choice_points)."""
     dist = {}
@@ -62,7 +62,7 @@ def enumerate_all(fn, word_menu, outcome, max_runs=5_000_000):
         if kind == 1:
             alts = [(v, 1.0 / bound) for v in range(bound)]
         else:
-            alts = word_menu(i, log)
+            alts = word_menu(i, log, prefix)
         exp2 = log[:i + 1]
         for val, ww in alts:
             stack.append((prefix + [val], w * ww, exp2))
